@@ -223,15 +223,18 @@ Qed.
 (* ---------- shard bookkeeping ---------- *)
 
 Section Erased.
-Variables (polys : list (list byte)) (n : nat) (E : list nat).
+Variables (polys : list (list byte)) (n : nat) (E Zs : list nat).
 Let size := length polys.
 Hypothesis Hsize : size <> 0.
 
-Definition eshard (i : nat) : shard := if mem i E then None else Some (row polys i).
+Definition lostrep (i : nat) : shard := if mem i Zs then Some [] else None.
+Definition eshard (i : nat) : shard := if mem i E then lostrep i else Some (row polys i).
 Definition eshards : list shard := map eshard (seq 0 n).
 
 Lemma slen_eshard : forall i, slen (eshard i) = if mem i E then 0 else size.
-Proof. intro i. unfold eshard. destruct (mem i E); simpl; [reflexivity|apply length_row]. Qed.
+Proof.
+  intro i. unfold eshard, lostrep. destruct (mem i E); simpl; [destruct (mem i Zs); reflexivity|apply length_row].
+Qed.
 
 Lemma nth_eshards : forall i, i < n -> nth i eshards None = eshard i.
 Proof. intros i Hi. unfold eshards. apply nth_map_seq. exact Hi. Qed.
@@ -285,13 +288,13 @@ End Erased.
 
 (* ---------- reconstruction ---------- *)
 
-Lemma reconstruct_ok : forall polys k m E,
+Lemma reconstruct_ok : forall polys k m E Zs,
   length polys <> 0 -> Forall (fun p => length p <= k) polys ->
   1 <= k -> k + m <= 256 ->
   NoDup E -> (forall i, In i E -> i < k + m) -> length E <= m ->
-  reconstruct (eshards polys (k + m) E) k = Ok (map (fun i => Some (row polys i)) (seq 0 (k + m))).
+  reconstruct (eshards polys (k + m) E Zs) k = Ok (map (fun i => Some (row polys i)) (seq 0 (k + m))).
 Proof.
-  intros polys k m E Hsz Hlen Hk Hn Hnd Hin HE.
+  intros polys k m E Zs Hsz Hlen Hk Hn Hnd Hin HE.
   set (n := k + m) in *.
   assert (Hnkm : n = k + m) by reflexivity.
   pose proof (survivors_length E n Hnd Hin) as Hsurv.
@@ -302,10 +305,10 @@ Proof.
       apply filter_In in Hi. destruct Hi as [Hi1 Hi2]. apply in_seq in Hi1.
       exists i. split; [lia|]. destruct (mem i E); [discriminate|reflexivity]. }
   destruct Hex as [i0 [Hi0 Hm0]].
-  unfold reconstruct. rewrite (check_eshards polys n E Hsz i0 Hi0 Hm0). simpl rbind.
-  rewrite length_eshards, (pres_eshards polys n E Hsz), Hsurv.
-  assert (Hss : shard_size (eshards polys n E) = length polys).
-  { unfold eshards. rewrite (shard_size_map polys E Hsz), (survivor_exists polys n E Hsz i0 Hi0 Hm0). reflexivity. }
+  unfold reconstruct. rewrite (check_eshards polys n E Zs Hsz i0 Hi0 Hm0). simpl rbind.
+  rewrite length_eshards, (pres_eshards polys n E Zs Hsz), Hsurv.
+  assert (Hss : shard_size (eshards polys n E Zs) = length polys).
+  { unfold eshards. rewrite (shard_size_map polys E Zs Hsz), (survivor_exists polys n E Hsz i0 Hi0 Hm0). reflexivity. }
   destruct (Nat.eqb (n - length E) n) eqn:Eall.
   - (* nothing missing *)
     apply Nat.eqb_eq in Eall. f_equal. unfold eshards. apply map_ext_in. intros i Hi.
@@ -324,13 +327,13 @@ Proof.
     { unfold valid. apply firstn_length_le. unfold pres. rewrite Hsurv. lia. }
     assert (Hvnd : NoDup valid).
     { unfold valid. apply NoDup_firstn. unfold pres. apply NoDup_filter. apply seq_NoDup. }
-    assert (Hsub : map (fun i => sbytes (nth i (eshards polys n E) None)) valid = map (row polys) valid).
+    assert (Hsub : map (fun i => sbytes (nth i (eshards polys n E Zs) None)) valid = map (row polys) valid).
     { apply map_ext_in. intros i Hi. destruct (Hvin i Hi) as [H1 H2].
-      rewrite (nth_eshards polys n E i H1). unfold eshard. rewrite H2. reflexivity. }
+      rewrite (nth_eshards polys n E Zs i H1). unfold eshard. rewrite H2. reflexivity. }
     rewrite Hsub, Hss.
     apply map_ext_in. intros i Hi. apply in_seq in Hi.
-    rewrite (present_eshards polys n E Hsz i) by lia.
-    rewrite (nth_eshards polys n E i) by lia. unfold eshard.
+    rewrite (present_eshards polys n E Zs Hsz i) by lia.
+    rewrite (nth_eshards polys n E Zs i) by lia. unfold eshard.
     destruct (mem i E); simpl; [|reflexivity].
     f_equal. apply rows_determined with (k := k).
     + exact Hlen.
@@ -339,12 +342,12 @@ Proof.
     + intros j Hj. destruct (Hvin j Hj). lia.
 Qed.
 
-Lemma reconstruct_too_few : forall polys k m E,
+Lemma reconstruct_too_few : forall polys k m E Zs,
   length polys <> 0 ->
   NoDup E -> (forall i, In i E -> i < k + m) -> m < length E ->
-  exists e, reconstruct (eshards polys (k + m) E) k = Err e.
+  exists e, reconstruct (eshards polys (k + m) E Zs) k = Err e.
 Proof.
-  intros polys k m E Hsz Hnd Hin HE.
+  intros polys k m E Zs Hsz Hnd Hin HE.
   set (n := k + m) in *.
   assert (Hnkm : n = k + m) by reflexivity.
   pose proof (survivors_length E n Hnd Hin) as Hsurv.
@@ -352,7 +355,7 @@ Proof.
   destruct (filter (fun i => negb (mem i E)) (seq 0 n)) as [|i0 tl] eqn:Ef.
   - (* every shard lost: ErrShardNoData *)
     exists E_SHARD_NO_DATA. unfold check_shards, eshards.
-    rewrite (shard_size_map polys E Hsz).
+    rewrite (shard_size_map polys E Zs Hsz).
     replace (existsb (fun i => negb (mem i E)) (seq 0 n)) with false; [reflexivity|].
     symmetry. apply not_true_is_false. intro Hex. apply existsb_exists in Hex.
     destruct Hex as [i [Hi1 Hi2]].
@@ -362,8 +365,8 @@ Proof.
     assert (Hi : In i0 (filter (fun i => negb (mem i E)) (seq 0 n))) by (rewrite Ef; left; reflexivity).
     apply filter_In in Hi. destruct Hi as [Hi1 Hi2]. apply in_seq in Hi1.
     assert (Hm0 : mem i0 E = false) by (destruct (mem i0 E); [discriminate|reflexivity]).
-    rewrite (check_eshards polys n E Hsz i0 ltac:(lia) Hm0). simpl rbind.
-    rewrite length_eshards, (pres_eshards polys n E Hsz).
+    rewrite (check_eshards polys n E Zs Hsz i0 ltac:(lia) Hm0). simpl rbind.
+    rewrite length_eshards, (pres_eshards polys n E Zs Hsz).
     rewrite Ef. simpl length in Hsurv |- *. rewrite Hsurv.
     assert (H1 : Nat.eqb (n - length E) n = false) by (apply Nat.eqb_neq; lia).
     assert (H2 : Nat.ltb (n - length E) k = true) by (apply Nat.ltb_lt; lia).
@@ -477,25 +480,25 @@ Proof.
   - exists (repeat x00 (Z.to_nat (len' - len))). exact C3.
 Qed.
 
-Lemma erase_rows : forall polys n E,
-  erase E (map (row polys) (seq 0 n)) = eshards polys n E.
+Lemma erase_rows : forall polys n E Zs,
+  erase_as E Zs (map (row polys) (seq 0 n)) = eshards polys n E Zs.
 Proof.
-  intros polys n E. unfold erase, eshards. rewrite map_length, seq_length.
-  apply map_ext_in. intros i Hi. apply in_seq in Hi. unfold eshard. fold (mem i E).
+  intros polys n E Zs. unfold erase_as, eshards. rewrite map_length, seq_length.
+  apply map_ext_in. intros i Hi. apply in_seq in Hi. unfold eshard, lostrep. fold (mem i E). fold (mem i Zs).
   destruct (mem i E); [reflexivity|]. f_equal. apply nth_map_seq. lia.
 Qed.
 
 (* ---------- the theorems ---------- *)
 
-Theorem rs_recovers : forall (blob : list byte) (k m : Z) (E : list nat),
+Theorem rs_recovers_as : forall (blob : list byte) (k m : Z) (E Zs : list nat),
   blob <> [] -> 1 <= k -> 0 <= m -> k + m <= 256 ->
   NoDup E -> (forall i, In i E -> (i < Z.to_nat (k + m))%nat) -> Z.of_nat (length E) <= m ->
   exists size shards,
     erasure_code blob k m = Ok (size, k + m, shards) /\
     length shards = Z.to_nat (k + m) /\
-    reconstruct_and_join (erase E shards) k (Z.of_nat (length blob)) = (Ok blob, map Some shards).
+    reconstruct_and_join (erase_as E Zs shards) k (Z.of_nat (length blob)) = (Ok blob, map Some shards).
 Proof.
-  intros blob k m E Hne Hk Hm Hn Hnd Hin HE.
+  intros blob k m E Zs Hne Hk Hm Hn Hnd Hin HE.
   destruct (erasure_code_rows blob k m Hne Hk Hm Hn)
     as [size [polys [data [Hec [Hsz [Hpl [Hpk [Hdl [Hdata [pad Hcat]]]]]]]]]].
   exists size, (map (row polys) (seq 0 (Z.to_nat k + Z.to_nat m))).
@@ -504,7 +507,7 @@ Proof.
   rewrite length_eshards.
   replace (Z.of_nat (Z.to_nat k + Z.to_nat m) - k) with m by lia.
   rewrite (rs_new_ok k m Hk Hm Hn).
-  rewrite (reconstruct_ok polys (Z.to_nat k) (Z.to_nat m) E) by
+  rewrite (reconstruct_ok polys (Z.to_nat k) (Z.to_nat m) E Zs) by
     (try assumption; try lia; intros i Hi; specialize (Hin i Hi); lia).
   rewrite <- map_map with (g := Some) (f := row polys). f_equal.
   unfold join_shards. rewrite map_length, map_length, seq_length.
@@ -516,17 +519,17 @@ Proof.
   - rewrite Hcat, app_length. lia.
 Qed.
 
-Theorem rs_too_few_is_error : forall (blob : list byte) (k m : Z) (E : list nat),
+Theorem rs_too_few_is_error_as : forall (blob : list byte) (k m : Z) (E Zs : list nat),
   blob <> [] -> 1 <= k -> 0 <= m -> k + m <= 256 ->
   NoDup E -> (forall i, In i E -> (i < Z.to_nat (k + m))%nat) -> m < Z.of_nat (length E) ->
   exists size shards e,
     erasure_code blob k m = Ok (size, k + m, shards) /\
-    reconstruct_and_join (erase E shards) k (Z.of_nat (length blob)) = (Err e, erase E shards).
+    reconstruct_and_join (erase_as E Zs shards) k (Z.of_nat (length blob)) = (Err e, erase_as E Zs shards).
 Proof.
-  intros blob k m E Hne Hk Hm Hn Hnd Hin HE.
+  intros blob k m E Zs Hne Hk Hm Hn Hnd Hin HE.
   destruct (erasure_code_rows blob k m Hne Hk Hm Hn)
     as [size [polys [data [Hec [Hsz [Hpl [Hpk [Hdl [Hdata [pad Hcat]]]]]]]]]].
-  destruct (reconstruct_too_few polys (Z.to_nat k) (Z.to_nat m) E) as [e He];
+  destruct (reconstruct_too_few polys (Z.to_nat k) (Z.to_nat m) E Zs) as [e He];
     try assumption; try lia.
   { intros i Hi. specialize (Hin i Hi). lia. }
   exists size, (map (row polys) (seq 0 (Z.to_nat k + Z.to_nat m))), e.
@@ -536,6 +539,24 @@ Proof.
   replace (Z.of_nat (Z.to_nat k + Z.to_nat m) - k) with m by lia.
   rewrite (rs_new_ok k m Hk Hm Hn), He. reflexivity.
 Qed.
+
+(* the same with every lost shard given as nil *)
+Theorem rs_recovers : forall (blob : list byte) (k m : Z) (E : list nat),
+  blob <> [] -> 1 <= k -> 0 <= m -> k + m <= 256 ->
+  NoDup E -> (forall i, In i E -> (i < Z.to_nat (k + m))%nat) -> Z.of_nat (length E) <= m ->
+  exists size shards,
+    erasure_code blob k m = Ok (size, k + m, shards) /\
+    length shards = Z.to_nat (k + m) /\
+    reconstruct_and_join (erase E shards) k (Z.of_nat (length blob)) = (Ok blob, map Some shards).
+Proof. intros blob k m E. exact (rs_recovers_as blob k m E []). Qed.
+
+Theorem rs_too_few_is_error : forall (blob : list byte) (k m : Z) (E : list nat),
+  blob <> [] -> 1 <= k -> 0 <= m -> k + m <= 256 ->
+  NoDup E -> (forall i, In i E -> (i < Z.to_nat (k + m))%nat) -> m < Z.of_nat (length E) ->
+  exists size shards e,
+    erasure_code blob k m = Ok (size, k + m, shards) /\
+    reconstruct_and_join (erase E shards) k (Z.of_nat (length blob)) = (Err e, erase E shards).
+Proof. intros blob k m E. exact (rs_too_few_is_error_as blob k m E []). Qed.
 
 (* the empty blob cannot be erasure coded: Encode rejects all-empty shards *)
 Theorem erasure_code_empty : forall k m, 1 <= k -> 0 <= m -> k + m <= 256 ->
